@@ -310,6 +310,18 @@ def rewrite(term, fn):
     return new if r is None else r
 
 
+_NEGATED = {"in": "notin", "notin": "in", "is": "isnot", "isnot": "is", "==": "!=", "!=": "=="}
+
+
+def negate(term):
+    """The negation of a condition, spelled the way the source would spell it."""
+    if term[0] == "not":
+        return term[1]
+    if term[0] == "cmp" and term[1] in _NEGATED:
+        return ("cmp", _NEGATED[term[1]], term[2], term[3])
+    return ("not", term)
+
+
 def merge_class_tests(term):
     """`isinstance(x, A) or isinstance(x, B)` is the same test as `isinstance(x, (A, B))` (same for issubclass): adjacent
     disjuncts on one subject are merged so that rules see one canonical spelling."""
